@@ -157,6 +157,21 @@ class USMSecurityParameters:
         """
         Construct a USMSecurityParameters instance from an SNMP/X690 Sequence
         """
+        # These values are kept (discovery) and reused for every later
+        # request. Refuse anything which is not what rfc3414#section-2.4
+        # defines instead of failing on each of those requests.
+        expected = (
+            OctetString,
+            Integer,
+            Integer,
+            OctetString,
+            OctetString,
+            OctetString,
+        )
+        if len(seq) != len(expected) or not all(
+            isinstance(item, cls) for item, cls in zip(seq, expected)
+        ):
+            raise USMError("Malformed USM security parameters: %r" % (seq,))
         return USMSecurityParameters(
             authoritative_engine_id=seq[0].pythonize(),
             authoritative_engine_boots=seq[1].pythonize(),
